@@ -99,6 +99,7 @@ pub fn search(pid: &str, seed: u64, budget_s: u64, out: &str) {
         "C16" => c16(&mut s),
         "C17" => c17(&mut s, &mut rng),
         "C14" => c14(&mut s, &mut rng),
+        "C05" | "C06" | "C07" | "C18" | "C19" | "C20" | "C08" => opt_search(pid, &mut s, &mut rng),
         "C15" => c15(&mut s, &mut rng),
         _ => {}
     }
@@ -173,5 +174,185 @@ fn c15(s: &mut Search, rng: &mut Rng) {
         let edge = site.1.abs() == 0.5 || site.2.abs() == 0.5;
         s.class(if edge { "on-bound" } else { "interior" });
         s.run("Site.copies", &req, "c15_site", "site placements are not the group's copies in the canonical cell", site.0.len() >= 2);
+    }
+}
+
+/// configurations biased towards what each optimiser property talks about
+fn cfg_for(pid: &str, rng: &mut Rng) -> String {
+    let o = |x: Option<f64>| x.map(fhex).unwrap_or_else(|| "-".to_string());
+    let mut steps = *rng.pick(&[0u64, 1, 2, 3, 7, 10, 24, 50, 100, 200, 333, 600]);
+    let mut inner = *rng.pick(&[0u64, 1, 2, 3, 5, 7, 10, 25, 50, 100, 1000]);
+    let mut kt_start = match rng.below(5) {
+        0 | 1 => 0.0,
+        2 => 0.1,
+        3 => rng.logmag(-4.0, 1.0),
+        _ => *rng.pick(&[1.0, 1e-3, 0.5]),
+    };
+    let mut kt_finish = Some(*rng.pick(&[0.001, 0.0, 1e-3, 1.0, 0.05, 1e-6]));
+    let mut kt_ratio = match rng.below(6) {
+        0 | 1 | 2 => None,
+        3 => Some(0.0),
+        4 => Some(*rng.pick(&[0.1, 0.5, 1.0, 2.0, 0.01])),
+        _ => Some(rng.range(0.0, 1.0)),
+    };
+    let mut max_step = match rng.below(4) {
+        0 => 0.01,
+        1 => 0.001,
+        2 => rng.logmag(-3.0, 0.0),
+        _ => *rng.pick(&[1.0, 0.5, 0.1, 2.0]),
+    };
+    let seed = match rng.below(3) {
+        0 => rng.below(100),
+        1 => rng.next(),
+        _ => rng.below(1 << 20),
+    };
+    let mut conv = match rng.below(4) {
+        0 => Some(*rng.pick(&[1e-3, 1e-6, 0.1, 0.0, 10.0])),
+        _ => None,
+    };
+    match pid {
+        "C05" => kt_start = 0.0,
+        "C18" => {
+            // many loops, temperatures comparable with the score differences of the scripts
+            steps = *rng.pick(&[60u64, 100, 200, 400, 600]);
+            inner = *rng.pick(&[5u64, 10, 20, 50]);
+            kt_start = if rng.chance(1, 6) { 0.0 } else { rng.logmag(-2.0, 0.5) };
+            kt_finish = Some(kt_start * rng.logmag(-3.0, 0.0));
+            if rng.chance(1, 3) {
+                kt_ratio = Some(rng.range(0.0, 0.5));
+            } else {
+                kt_ratio = None;
+            }
+            conv = None;
+        }
+        "C19" => {
+            steps = *rng.pick(&[30u64, 100, 200, 400, 600]);
+            inner = *rng.pick(&[3u64, 5, 10, 20, 50]);
+            max_step = *rng.pick(&[0.01, 0.1, 0.5, 1.0, 0.001]);
+        }
+        "C20" => {
+            if rng.chance(1, 2) {
+                conv = Some(*rng.pick(&[1e-3, 1e-6, 0.1, 0.0, 10.0, 1e-2]));
+                steps = *rng.pick(&[60u64, 100, 200, 333, 600]);
+                inner = *rng.pick(&[1u64, 3, 5, 10, 20]);
+            }
+        }
+        _ => {}
+    }
+    format!("{} {} {} {} {} {} {} {}", steps, inner, fhex(kt_start), o(kt_finish), o(kt_ratio), fhex(max_step), seed, o(conv))
+}
+
+/// scripted states biased per property
+fn scripted_for(pid: &str, rng: &mut Rng) -> String {
+    if pid == "C18" || (pid == "C07" && rng.chance(1, 2)) {
+        // an explicit list whose consecutive differences are of the order of the temperature
+        let nc = 2 + rng.usize(4);
+        let mut s = format!("scripted {}", nc);
+        for _ in 0..nc {
+            s.push_str(&format!(" {}", fhex(rng.range(-0.4, 0.4))));
+        }
+        s.push_str(&format!(" {}", nc));
+        for h in 0..nc {
+            s.push_str(&format!(" {} {} {}", h, fhex(-0.5), fhex(0.5)));
+        }
+        let n = 7 + rng.usize(30);
+        s.push_str(&format!(" list {}", n));
+        let scale = rng.logmag(-2.5, 0.0);
+        let mut cur = 0.0;
+        for i in 0..n {
+            if i > 0 && rng.chance(1, 12) {
+                s.push_str(" N");
+                continue;
+            }
+            cur += match rng.below(5) {
+                0 => 0.0,
+                1 => scale * rng.unit(),
+                _ => -scale * rng.unit(),
+            };
+            s.push_str(&format!(" {}", fhex(cur)));
+        }
+        return s;
+    }
+    let base = crate::gen::gen_scripted(rng);
+    if (pid == "C05" || pid == "C07" || pid == "C08") && base.contains(" list ") && rng.chance(1, 5) {
+        // splice a NaN / infinite score into the explicit list (never at position 0)
+        let toks: Vec<&str> = base.split(' ').collect();
+        if let Some(li) = toks.iter().position(|t| *t == "list") {
+            let n: usize = toks[li + 1].parse().unwrap_or(0);
+            if n >= 2 {
+                let j = li + 2 + 1 + rng.usize(n - 1);
+                let mut v: Vec<String> = toks.iter().map(|t| t.to_string()).collect();
+                v[j] = fhex(*rng.pick(&[f64::NAN, f64::NAN, f64::NEG_INFINITY, f64::INFINITY]));
+                return v.join(" ");
+            }
+        }
+    }
+    base
+}
+
+fn opt_search(pid: &str, s: &mut Search, rng: &mut Rng) {
+    let mut n = 0u64;
+    // C08: initial states of every group x shape family first
+    if pid == "C08" {
+        for g in crate::gen::GROUPS.iter() {
+            for sides in [3usize, 4, 5, 6, 8, 12].iter() {
+                let req = format!("oracle c08_initial hard poly {} {}", sides, g);
+                s.class("initial");
+                s.run("Opt.initialValid", &req, "c08_initial", "initial state has no valid finite score", true);
+            }
+            for sh in ["hard circle", "lj ljcircle"].iter() {
+                let req = format!("oracle c08_initial {} {}", sh, g);
+                s.class("initial");
+                s.run("Opt.initialValid", &req, "c08_initial", "initial state has no valid finite score", true);
+            }
+        }
+    }
+    while s.time_left() && n < 2_000_000 {
+        n += 1;
+        let kind = rng.below(10);
+        if pid == "C08" && kind < 4 {
+            // chained stages on real states (the CLI chains three)
+            let k = 1 + rng.usize(4);
+            let cfgs: Vec<String> = (0..k).map(|_| crate::gen::gen_cfg_small(rng)).collect();
+            let req = format!("oracle opt_chain {} {} crystal {}", k, cfgs.join(" "), crate::gen::gen_state_desc(rng, true));
+            s.class("chain");
+            s.run("Opt.inRange", &req, "c08_chain", "a chain of optimisation stages left the declared ranges / crystal family / finite score", true);
+            continue;
+        }
+        if pid == "C08" && kind == 4 {
+            let sh = if rng.chance(1, 2) { format!("hard {}", crate::gen::gen_trimer(rng, "trimer")) } else { format!("lj {}", crate::gen::gen_trimer(rng, "ljtrimer")) };
+            let req = format!("oracle c08_initial {} {}", sh, *rng.pick(&crate::gen::GROUPS));
+            s.class("initial");
+            s.run("Opt.initialValid", &req, "c08_initial", "initial state has no valid finite score", true);
+            continue;
+        }
+        if pid == "C20" && kind < 3 {
+            let mut cfg = cfg_for(pid, rng);
+            if cfg.ends_with(" -") {
+                cfg = format!("{} {}", &cfg[..cfg.len() - 2], fhex(*rng.pick(&[1e-3, 0.1, 10.0, 0.0])));
+            }
+            let st = if rng.chance(1, 4) { format!("crystal {}", crate::gen::gen_state_desc(rng, true)) } else { scripted_for(pid, rng) };
+            let req = format!("oracle opt_prefix {} {}", cfg, st);
+            s.class("prefix");
+            s.run("Opt.prefix", &req, "c20_prefix", "the run with a convergence threshold is not a prefix of the run without", true);
+            continue;
+        }
+        let crystal = kind >= 8 || (pid == "C08" && kind >= 6);
+        let (cfg, st) = if crystal {
+            let mut c = crate::gen::gen_cfg_small(rng);
+            if pid == "C05" {
+                // force kt_start = 0
+                let mut t: Vec<String> = c.split(' ').map(|x| x.to_string()).collect();
+                t[2] = fhex(0.0);
+                c = t.join(" ");
+            }
+            (c, format!("crystal {}", crate::gen::gen_state_desc(rng, true)))
+        } else {
+            (cfg_for(pid, rng), scripted_for(pid, rng))
+        };
+        let req = format!("oracle opt_monitor {} {} {}", pid, cfg, st);
+        s.class(if crystal { "crystal" } else { "scripted" });
+        let reply_nontrivial = !cfg.starts_with("0 ");
+        s.run("Opt.monitor", &req, "opt_history", "optimiser history violates the property", reply_nontrivial);
     }
 }
